@@ -243,8 +243,8 @@ pub fn check_case(c: &Case) -> CaseResult {
 
 pub fn cases(args: &Args) -> Vec<Case> {
     let thorough = args.tier == Tier::Thorough;
-    let ns: &[usize] = if thorough { &[1, 2, 3, 127, 128, 129] } else { &[1, 2, 3, 128] };
-    let sizes: &[usize] = if thorough { &[8, 126, 127, 128, 129, 16382, 16383, 16384, 16385] } else { &[8, 127, 128, 16384] };
+    let ns: &[usize] = if thorough { &[1, 2, 3, 4, 5, 64, 127, 128, 129, 130] } else { &[1, 2, 3, 128] };
+    let sizes: &[usize] = if thorough { &[8, 9, 64, 126, 127, 128, 129, 130, 255, 256, 16382, 16383, 16384, 16385] } else { &[8, 127, 128, 16384] };
     let mut out = vec![];
     for &n in ns {
         for &s in sizes {
